@@ -182,7 +182,7 @@ func (e hostsafe) genSource(r *core.PRNG) ([]byte, string) {
 	return capLen(out, 16<<10), kind
 }
 
-var hsLoadArgs = []string{"main", "main", "main", "main/main.go", "", ".", "../x", "ma*n", "main/", "a/b", "vendor", "x.go", "main/x.go", "[", "main/[a", "ext", "_"}
+var hsLoadArgs = []string{"main", "main", "main", "main/main.go", "", ".", "../x", "ma*n", "[m][a][i][n]", "[m]??[n]", "main/", "a/b", "vendor", "x.go", "main/x.go", "[", "main/[a", "ext", "_"}
 var hsCallNames = []string{"main.main", "main.f0", "main.f1", "main.f2", "main.hook", "main.hook", "main.f", "main.init", "f", "math.Sqrt", "fmt.Println", "nope", "", "main.T", "builtin.__yield", "time.Sleep", "strings.Repeat", "main.x", "golang.org/x/exp/slices.SortFunc"}
 var hsVias = []string{"", "", "", "", "native", "func", "sort", "yield", "init", "method"}
 
@@ -222,7 +222,30 @@ func (e hostsafe) genTree(r *core.PRNG) []core.DiskFile {
 			files[i].Data, _ = e.damageFile(r, files[i].Data)
 		}
 	}
-	switch r.Intn(16) {
+	switch r.Intn(18) {
+	case 10, 11:
+		// an import path (and a Load argument) with glob syntax that matches an existing directory
+		dir := "main"
+		if len(files) > 0 {
+			dir = path.Dir(core.Pick(r, files).Path)
+		}
+		pat := ""
+		for _, ch := range dir {
+			switch {
+			case ch == '/':
+				pat += "/"
+			case r.Chance(2, 3):
+				pat += "[" + string(ch) + "]"
+			case r.Chance(1, 2):
+				pat += "?"
+			default:
+				pat += string(ch)
+			}
+		}
+		if r.Chance(1, 3) {
+			pat = "*" + pat[1:]
+		}
+		files = append(files, core.DiskFile{Path: "main/glob.go", Data: []byte("package main\nimport \"" + pat + "\"\nfunc main() {}\n")})
 	case 8, 9:
 		// one more file in a package directory, sorted before or after the others, whose package
 		// clause is preceded by an operator or another stray token
